@@ -294,7 +294,10 @@ def read_env(src, expr, skip_envs=(), tolerance=0, mode=MODE_NON_MATH):
     if error and tolerance == 0:
         unclosed_env_handler(src, expr, src.peek((0, 6)))
     elif not error:
-        src.forward(5)
+        # consume exactly what the peek matched: \end, spacer, {name}
+        src.forward(2)
+        read_spacer(src)
+        read_arg(src, next(src))
     expr.append(*contents)
     return expr
 
